@@ -15,7 +15,8 @@ TEXT = ("Sibling cross-check over every `impl Adapter` of every cargo feature co
         "to the backend method of the same name and strip the literal from listings. S4: every read_object returns the "
         "whole value under length==0 [&& offset==0] and otherwise the slice offset..offset+length. S5: consumers of "
         "listings re-append the same extension constant. Decides the shape of the contract in every backend; does not "
-        "decide reopen equality, compression round trips or cross-backend state equality (runtime values).")
+        "decide reopen equality, compression round trips or cross-backend state equality (runtime values)."
+        " S3 (revised): a wrapper hands the delegate's listing on unchanged and maps a key to one backend key; S3d: its read passes through the delegate. S2c: the directory listing reads the store on every call. S6 / S6b: whole-buffer I/O, no truncating adaptor. S7 / S7b: file name / map key is the key itself, no byte-range slicing of the key. S8: SQLite schema creation is IF NOT EXISTS. The Solid backend is excluded by the property and not judged.")
 TECHNIQUE = 'static analysis over rustc MIR: sibling agreement of all Adapter implementations (absence-guarded write effects, suffix filter+strip shape, ranged-read shape, wrapper delegation and codec symmetry)'
 TRUSTED = ["rustc nightly MIR", "std::fs, BTreeMap, rusqlite, reqwest, flate2, brotli behave as documented",
            "SQLite PRIMARY KEY + INSERT OR IGNORE keeps the first row"]
